@@ -1,21 +1,33 @@
 """
-stream `filefields` (C05, supplementary, evaluated on the implementation only): FilenameField and UrlField, the two field
-classes whose constraints are about the outside world (the file system, URL syntax) and which Fields.v leaves opaque.
-Exactness against an independent re-statement (os.path / urllib called directly), idempotence, determinism, and the on-disk
-round trip, with the process working in a directory DIFFERENT from the field's start directory and decoy entries of the same
-names in it.
+stream `filefields` (C05): FilenameField and UrlField, the two field classes whose constraints are about the outside world
+(the file system, URL syntax), compared with FileFields.v (`run_filefields`).  The file system, the os.path algebra and
+urlparse are not code of /repo: every case carries the table of the os.path / urllib answers (obtained by calling them
+DIRECTLY, never through cincoconfig, while the case's directory layout exists) for the paths the model may ask about; a
+missing row makes the model answer Unmodelled, which shows up as a disagreement.  The temporary root is written "/R" in
+cases and observations.  The direct oracle (independent of the model) is kept: exactness against a re-statement from the
+layout, idempotence, determinism, the on-disk round trip -- with the process working in a directory DIFFERENT from the
+field's start directory and decoy entries of the same names in it.
 """
 import os
 import shutil
 import tempfile
 
+import re
+
+from common import gal, g_str, g_bool, g_list, g_opt, g_z
+
+# inherited StringField options (the region of the open finding F56 when combined with a start directory)
+SOPTS = [("case", "lower"), ("case", "upper"), ("min", 3), ("max", 12), ("regex", "^[a-z./]+$"),
+         ("choices", ["a.txt", "sub", "sub/b.txt", "missing.txt"])]
+
 NAME = "filefields"
-MODEL = False
-IMPORTS = RUN = CASE_TYPE = None
+IMPORTS = "From Cinco Require Import Base Str Fields FileFields."
+RUN = "run_filefields"
+CASE_TYPE = "ffcase"
 
 EXISTS = [None, True, False, "dir", "file"]
 NAMES = ["a.txt", "sub/b.txt", "sub", "missing.txt", "nodir/x", "", "  a.txt  ", "decoy-only.txt", "both.txt", "ABS:a.txt", "ABS:missing",
-         ".", "sub/"]
+         ".", "sub/", "sub/../a.txt", "./a.txt", "../start/a.txt", "../cwd/decoy-only.txt", "a.txt/", "ABS:sub", "ABS:sub/b.txt"]
 URLS = ["http://example.com", "https://example.com/a?b=c#d", "ftp://host/file", "example.com", "/relative/path", "http://", "://x",
         "mailto:user@example.com", "", "  http://example.com  ", "HTTP://EXAMPLE.COM", "http://[::1]:80/", "http://exa mple.com", "file:///etc/hosts"]
 
@@ -26,6 +38,12 @@ def generate(rng, tier):
         for sd in (None, "start"):
             for name in NAMES:
                 cases.append({"cls": "file", "exists": ex, "startdir": sd, "value": name, "strip": name != name.strip(), "src": "matrix"})
+    # FilenameField with an inherited string option: each option x start directory unset / set x relative / absolute names x modes
+    for so in SOPTS:
+        for sd in (None, "start", "Up"):
+            for name in ("a.txt", "sub/b.txt", "sub", "missing.txt", "ABS:a.txt", "ABS:sub", "A.TXT", ""):
+                for ex in EXISTS:
+                    cases.append({"cls": "file", "exists": ex, "startdir": sd, "value": name, "strip": False, "sopt": so, "src": "matrix"})
     for u in URLS:
         for req in (False, True):
             cases.append({"cls": "url", "value": u, "required": req, "strip": u != u.strip(), "src": "matrix"})
@@ -34,22 +52,91 @@ def generate(rng, tier):
         cases.append({"cls": "url", "value": v, "required": False, "strip": False, "src": "matrix"})
     for _ in range(100 if tier == "quick" else 3000):
         if rng.random() < 0.7:
-            cases.append({"cls": "file", "exists": rng.choice(EXISTS), "startdir": rng.choice([None, "start", "start/sub"]),
-                          "value": rng.choice(NAMES), "strip": rng.random() < 0.3, "src": "random"})
+            cases.append({"cls": "file", "exists": rng.choice(EXISTS), "startdir": rng.choice([None, "start", "start/sub", "Up"]),
+                          "value": rng.choice(NAMES + ["A.TXT", "Sub"]), "strip": rng.random() < 0.3,
+                          "sopt": rng.choice(SOPTS) if rng.random() < 0.35 else None, "src": "random"})
         else:
             cases.append({"cls": "url", "value": rng.choice(URLS), "required": rng.random() < 0.3, "strip": rng.random() < 0.3, "src": "random"})
     return cases
 
 
 def gcase(c):
-    return ""
+    t = c["_tab"]
+    so = c.get("sopt") or (None, None)
+    sopts = "(mk_sopts %s %s %s %s %s %s)" % (
+        g_opt(so[1] if so[0] == "min" else None, g_z), g_opt(so[1] if so[0] == "max" else None, g_z),
+        g_opt(so[1] if so[0] == "regex" else None, g_str), g_list(so[1] if so[0] == "choices" else [], g_str),
+        {"lower": "CLower", "upper": "CUpper"}.get(so[1] if so[0] == "case" else None, "CNone"), "SWs" if c["strip"] else "SNone")
+    if c["cls"] == "file":
+        mode = {None: "ENone", True: "ETrue", False: "EFalse", "dir": "EDir", "file": "EFile"}[c["exists"]]
+        f = "(FFile false %s %s %s)" % (sopts, mode, g_opt(t["startdir"], g_str))
+    else:
+        f = "(FUrl %s %s)" % (g_bool(c["required"]), sopts)
+    rows = g_list(t["rows"], lambda r: "(%s,(%s,%s,%s,%s,%s,%s))" % (g_str(r[0]), g_bool(r[1]), g_str(r[2]), g_str(r[3]),
+                                                                     g_bool(r[4]), g_bool(r[5]), g_bool(r[6])))
+    joins = g_list(t["joins"], lambda r: "(%s,%s,%s)" % (g_str(r[0]), g_str(r[1]), g_str(r[2])))
+    urls = g_list(t["urls"], lambda r: "(%s,%s)" % (g_str(r[0]), g_opt(r[1], g_str)))
+    rx = g_list(t["rx"], lambda r: "(%s,%s,%s)" % (g_str(r[0]), g_str(r[1]), g_bool(r[2])))
+    return "(%s, %s, %s, %s, %s, %s)" % (f, rx, rows, joins, urls, gal(t["x"]))
+
+
+def _cz(root, s):
+    """the temporary root written canonically: same length (length options see it), lower case with an upper-case twin"""
+    canon = "/r" + "0" * (len(root) - 2)
+    return s.replace(root, canon).replace(root.upper(), canon.upper())
+
+
+def _tables(c, root, v, sd):
+    """what os.path / urlparse answer, asked directly, for every path / text the model may ask about"""
+    cz = lambda s: _cz(root, s)   # noqa: E731
+    so = c.get("sopt") or (None, None)
+    cands = []
+
+    def add(s):
+        if isinstance(s, str) and (s != "" or c["cls"] == "url") and s not in cands:
+            cands.append(s)
+            if so[0] == "case":        # the pipeline's case transform is applied to the text, and again to a stored path
+                for t in (s.lower(), s.upper()):
+                    if t not in cands:
+                        cands.append(t)
+    if isinstance(v, str):
+        add(v)
+        add(v.strip())
+    rows, joins, urls = [], [], []
+    i = 0
+    while i < len(cands) and i < 80:
+        pth = cands[i]
+        i += 1
+        if c["cls"] == "file":
+            e, a = os.path.expanduser(pth), os.path.abspath(pth)
+            rows.append((cz(pth), os.path.isabs(pth), cz(e), cz(a), os.path.exists(pth), os.path.isdir(pth), os.path.isfile(pth)))
+            if sd and not os.path.isabs(pth):
+                j = os.path.join(sd, pth)
+                joins.append((cz(sd), cz(pth), cz(j)))
+                add(j)
+                add(os.path.expanduser(j))
+                add(os.path.abspath(os.path.expanduser(j)))
+                add(os.path.abspath(os.path.expanduser(j)).strip())
+        else:
+            from urllib.parse import urlparse
+            try:
+                urls.append((pth, urlparse(pth).scheme))
+            except Exception:  # noqa
+                urls.append((pth, None))
+    rx = []
+    if so[0] == "regex":
+        pat = re.compile(so[1])
+        rx = [(so[1], cz(t), bool(pat.match(t))) for t in cands + ([""] if "" not in cands else [])]
+    return {"rows": rows, "joins": joins, "urls": urls, "rx": rx, "x": cz(v) if isinstance(v, str) else v,
+            "startdir": cz(sd) if sd else sd}
 
 
 def _layout(root):
     """start/ (the field's start directory) and cwd/ (where the process works) hold different entries under the same names"""
-    for d in ("start/sub", "cwd/sub", "home"):
+    for d in ("start/sub", "cwd/sub", "home", "Up/sub"):
         os.makedirs(os.path.join(root, d))
-    for rel in ("start/a.txt", "start/sub/b.txt", "start/both.txt", "cwd/decoy-only.txt", "cwd/both.txt", "cwd/missing.txt", "home/home.txt"):
+    for rel in ("start/a.txt", "start/sub/b.txt", "start/both.txt", "cwd/decoy-only.txt", "cwd/both.txt", "cwd/missing.txt", "home/home.txt",
+                "Up/a.txt", "Up/sub/b.txt"):
         with open(os.path.join(root, rel), "w") as fp:
             fp.write(rel)
 
@@ -68,9 +155,12 @@ def impl(c):
         if isinstance(v, str) and v.startswith("ABS:"):
             v = os.path.join(root, "start", v[4:])
         out["value"] = v
+        c["_tab"] = _tables(c, root, v, None if c["cls"] != "file" or c["startdir"] is None else os.path.join(root, c["startdir"]))
         if c["cls"] == "file":
             sd = None if c["startdir"] is None else os.path.join(root, c["startdir"])
-            mk = lambda: FilenameField(exists=c["exists"], startdir=sd, transform_strip=True if c["strip"] else None)   # noqa: E731
+            so = c.get("sopt")
+            kw = {} if not so else {{"case": "transform_case", "min": "min_len", "max": "max_len", "regex": "regex", "choices": "choices"}[so[0]]: so[1]}
+            mk = lambda: FilenameField(exists=c["exists"], startdir=sd, transform_strip=True if c["strip"] else None, **kw)   # noqa: E731
             out["startdir"] = sd
         else:
             mk = lambda: UrlField(required=c["required"], transform_strip=True if c["strip"] else None)   # noqa: E731
@@ -107,7 +197,18 @@ def impl(c):
         else:
             os.environ["HOME"] = home
         shutil.rmtree(root, ignore_errors=True)
-    return out
+    c["_out"] = out
+    if "_tab" not in c:
+        c["_tab"] = {"rows": [], "joins": [], "urls": [], "rx": [], "x": None, "startdir": None}
+
+    def oc(r):
+        if r is None or r[0] != "ok":
+            return "err"
+        return ("ok", _cz(out["root"], r[1]) if isinstance(r[1], str) else r[1])
+    first = out.get("first")
+    if first is not None and first[0] == "ok" and first[1] is not None:
+        return (oc(first), oc(out.get("second")), oc(out.get("roundtrip")))
+    return (oc(first),)
 
 
 def _expect_file(c, obs):
@@ -119,6 +220,12 @@ def _expect_file(c, obs):
         return "rejected"
     if c["strip"]:
         v = v.strip()
+    so = c.get("sopt") or (None, None)       # the inherited options govern the text as typed (strip, case, then the checks)
+    if so[0] == "case":
+        v = v.lower() if so[1] == "lower" else v.upper()
+    if (so[0] == "min" and len(v) < so[1]) or (so[0] == "max" and len(v) > so[1]) or (so[0] == "regex" and not re.match(so[1], v)) \
+            or (so[0] == "choices" and v not in so[1]):
+        return "rejected"
     if v == "":
         return ("ok", "")
     root = obs["root"]
@@ -128,8 +235,9 @@ def _expect_file(c, obs):
     # what exists, decided from the layout (the directory tree is gone by now): relative to start/ or to cwd/
     base = full if os.path.isabs(full) else os.path.join(root, "cwd", full)
     rel = os.path.relpath(os.path.normpath(base), root)
-    files = {"start/a.txt", "start/sub/b.txt", "start/both.txt", "cwd/decoy-only.txt", "cwd/both.txt", "cwd/missing.txt", "home/home.txt"}
-    dirs = {"start", "start/sub", "cwd", "cwd/sub", "home", "."}
+    files = {"start/a.txt", "start/sub/b.txt", "start/both.txt", "cwd/decoy-only.txt", "cwd/both.txt", "cwd/missing.txt", "home/home.txt",
+             "Up/a.txt", "Up/sub/b.txt"}
+    dirs = {"start", "start/sub", "cwd", "cwd/sub", "home", ".", "Up", "Up/sub"}
     is_file, is_dir = rel in files, rel in dirs
     if base.endswith("/") and is_file:
         is_file = False
@@ -140,6 +248,7 @@ def _expect_file(c, obs):
 
 
 def oracle(c, obs):
+    obs = c["_out"]
     what = "%s %r" % ("FilenameField(exists=%r, startdir=%r)" % (c.get("exists"), c.get("startdir")) if c["cls"] == "file"
                       else "UrlField(required=%r)" % c.get("required"), c["value"])
     if "setup" in obs:
@@ -182,8 +291,25 @@ def oracle(c, obs):
     return bad
 
 
+def classify(c, msg):
+    """F56 (open): start directory + inherited string option + a relative name: the stored resolved path is changed or
+    refused by the options when validated again.  Only idempotence / round-trip messages, only in that region."""
+    if c["cls"] != "file" or not c.get("startdir"):
+        return None
+    if not (c.get("sopt") or c.get("strip")):
+        return None
+    v = c["value"]
+    if not isinstance(v, str) or v.startswith("ABS:") or os.path.isabs(v.strip()):
+        return None
+    if ": idem: " in msg or ": roundtrip: " in msg:
+        return "F56"
+    return None
+
+
 def tags(c, obs):
+    obs = c["_out"]
     return {"cls:" + c["cls"], "exists:%r" % (c.get("exists"),), "startdir:%r" % (c.get("startdir") is not None,),
+            "sopt:%s" % ((c.get("sopt") or ("none",))[0],),
             "result:" + str(obs.get("first", ("?",))[0])}
 
 
